@@ -1,6 +1,93 @@
-/-! Driver commands of the `UBoot` cluster.  `handle` returns `none` for commands that are not its own. -/
+import TbotVerif.Spec.UBoot
+import TbotVerif.Driver.Shell
+/-! Driver commands of the `UBoot` cluster.  `handle` returns `none` for commands that are not its own.
+    case:  `<prompt> <chunk> <cuts> <op>*`
+             op = `<x|x0|t>/<args,…>/<out>/<status>` | `e/<var>/<value|!>`
+    obs:   one token per op `<val>/<ran>/<written>/<pieces>` with
+             val = `rc:<status>:<text>` | `out:<text>` | `b0|b1` | `err:<tag>`
+             ran = `;`-joined `a:<word,…>` | `q` | `h:<line>`   (`.` = nothing)
+    `uboot <case…>` prints the model's observation, `spec C19 <case…> || <obs…>` prints 1/0,
+    `ubootv <case…> || <obs…>` the per-call verdicts (ok / stop = outside the domain / bad). -/
 namespace Driver.UBoot
+open _root_.UBoot
 
-def handle (_toks : List String) : Option String := none
+def bytesList (s : String) : Option (List Bytes) := Wire.listOf Bytes.ofHex s
+
+def opOf (s : String) : Option UOp :=
+  match s.splitOn "/" with
+  | [k, args, out, st] => do
+    let k ← if k == "x" then some Kind.exec else if k == "x0" then some .exec0
+            else if k == "t" then some .test else none
+    let args ← bytesList args
+    if args.isEmpty then none else
+    pure (.cmd k args (← Bytes.ofHex out) (← st.toNat?))
+  | ["e", var, value] => do
+    let v ← if value == "!" then some none else (Bytes.ofHex value).map some
+    pure (.env (← Bytes.ofHex var) v)
+  | _ => none
+
+def caseOf (toks : List String) : Option UCase :=
+  match toks with
+  | prompt :: chunk :: cuts :: ops => do
+    pure { prompt := ← Bytes.ofHex prompt, chunk := ← chunk.toNat?,
+           cuts := ← Wire.listOf String.toNat? cuts, ops := ← ops.mapM opOf }
+  | _ => none
+
+def valStr : UVal → String
+  | .rc st out => s!"rc:{st}:{Wire.chars out}"
+  | .out out => s!"out:{Wire.chars out}"
+  | .bool b => if b then "b1" else "b0"
+  | .err t => s!"err:{t}"
+
+def valOf (s : String) : Option UVal :=
+  match s.splitOn ":" with
+  | ["rc", st, out] => do pure (.rc (← st.toNat?) (← Wire.charsOf out))
+  | ["out", out] => (Wire.charsOf out).map .out
+  | ["b1"] => some (.bool true)
+  | ["b0"] => some (.bool false)
+  | "err" :: rest => some (.err (":".intercalate rest))
+  | _ => none
+
+def ranStr : Ran → String
+  | .argv ws => "a:" ++ Wire.sepBy "," (ws.map Bytes.toHex)
+  | .status => "q"
+  | .hazard l => "h:" ++ Bytes.toHex l
+
+def ranOf (s : String) : Option Ran :=
+  match s.splitOn ":" with
+  | ["a", ws] => (bytesList ws).map .argv
+  | ["q"] => some .status
+  | ["h", l] => (Bytes.ofHex l).map .hazard
+  | _ => none
+
+def obsStr (o : UObs) : String :=
+  "/".intercalate [valStr o.val, Wire.sepBy ";" (o.ran.map ranStr), Bytes.toHex o.written,
+    Wire.sepBy "," (o.pieces.map toString)]
+
+def obsOf (s : String) : Option UObs :=
+  match s.splitOn "/" with
+  | [v, ran, wr, ps] => do
+    let ran ← if ran == "." then some [] else (ran.splitOn ";").mapM ranOf
+    pure { val := ← valOf v, ran := ran, written := ← Bytes.ofHex wr,
+           pieces := ← Wire.listOf String.toNat? ps }
+  | _ => none
+
+def handle (toks : List String) : Option String :=
+  match toks with
+  | "uboot" :: rest =>
+    some (match caseOf rest with
+    | some c => " ".intercalate ((run c).map obsStr)
+    | none => "bad-op")
+  | "spec" :: "C19" :: rest =>
+    let (ct, ot) := Driver.Shell.splitAt2 rest "||"
+    some (match caseOf ct, ot.mapM obsOf with
+    | some c, some os => if Spec.C19 c os then "1" else "0"
+    | _, _ => "bad-op")
+  | "ubootv" :: rest =>
+    let (ct, ot) := Driver.Shell.splitAt2 rest "||"
+    some (match caseOf ct, ot.mapM obsOf with
+    | some c, some os => Wire.sepBy "," (verdicts c [] c.ops os)
+    | _, _ => "bad-op")
+  | _ => none
 
 end Driver.UBoot
